@@ -344,7 +344,7 @@ class ULPIRxEventDecoder(Elaboratable):
         m.d.comb += [
             self.line_state      .eq(self.last_rx_command[0:2]),
             self.vbus_valid      .eq(self.last_rx_command[2:4] == 0b11),
-            self.session_valid   .eq(self.last_rx_command[2:4] == 0b10),
+            self.session_valid   .eq(self.last_rx_command[2:4] >= 0b10),
             self.session_end     .eq(self.last_rx_command[2:4] == 0b00),
             self.rx_active       .eq(self.last_rx_command[4]),
             self.rx_error        .eq(self.last_rx_command[4:6] == 0b11),
